@@ -39,13 +39,6 @@ def gen_lt(rng):
         elif fam == "const":
             accel = 0
             rate = rng.choice([0, 1, -1, M, -M, -B, rng.randint(-M, M)])
-        elif fam == "top_rate":
-            # rate in the top fifth of the signed 31-bit range, a few ticks, small odd accel / jerk not a multiple of 6: the half- and
-            # sixth-integer corrections are tiny relative to the rate and must still be kept
-            T = rng.randint(3, 40)
-            jerk = rng.choice([1, -1, 2, -2, 4, -4, 5, -5, 7, -7, 0]); accel = rng.choice([0, 1, -1, 2, 3, -3, 10, 11])
-            mag = rng.randint(1666666667, M) - abs(accel) * T - abs(jerk) * T * T
-            rate = rng.choice([1, -1]) * mag
         elif fam == "small":
             accel = rng.randint(-9, 9); rate = rng.randint(-40, 40)
         else:
@@ -84,7 +77,7 @@ def gen_t3(rng):
     """(T, rate, accel, jerk) in the firmware-valid domain; vertex families for the rate parabola."""
     for _ in range(200):
         T = pick_T(rng)
-        fam = rng.choice(["small", "zero_jerk", "vertex_inside", "vertex_edge", "uniform", "zero_first", "zero_first_two", "equal_ends", "vertex_mid", "double_band", "zero_last", "top_rate"])
+        fam = rng.choice(["small", "zero_jerk", "vertex_inside", "vertex_edge", "uniform", "zero_first", "zero_first_two", "equal_ends", "vertex_mid", "double_band", "zero_last", "top_rate", "zero_both_ends"])
         if fam == "double_band":
             # totals of 2^51 .. 2^55 with half- and sixth-integer intermediate terms (odd accel, jerk not a multiple of 6, odd tick count)
             T = rng.randint(2**19, 2**23) | rng.choice([1, 1, 1, 0])
@@ -93,6 +86,19 @@ def gen_t3(rng):
             accel = rng.choice([1, -1, 3, -3, 5, 7, -9, 11, 2, 0, rng.randint(-99, 99)])
             jerk = rng.choice([0, 0, 1, -1, 3, -3, 2, 5])
             if abs(jerk) * T * T > 2**24: jerk = 0
+        elif fam == "top_rate":
+            # rate in the top fifth of the signed 31-bit range, a few ticks, small odd accel / jerk not a multiple of 6: the half- and
+            # sixth-integer corrections are tiny relative to the rate and must still be kept
+            T = rng.randint(3, 40)
+            jerk = rng.choice([1, -1, 2, -2, 4, -4, 5, -5, 7, -7, 0]); accel = rng.choice([0, 1, -1, 2, 3, -3, 10, 11])
+            mag = rng.randint(1666666667, M) - abs(accel) * T - abs(jerk) * T * T
+            rate = rng.choice([1, -1]) * mag
+        elif fam == "zero_both_ends":
+            # a short move that starts and ends at rest: the rate is 0 at the first and at the last tick and not in between
+            # (a bump of 3 .. 8 ticks); the distance covered is the sum of the middle ticks
+            T = rng.choice([3, 3, 4, 4, 5, 6, 8]); jerk = rng.choice([1, -1]) * rng.choice([2, 4, 6, 100, 2 * rng.randint(1, 10**8 // T)])
+            accel = -(jerk * T) // 2
+            rate = -accel + tq(accel, 2) - tq(jerk, 6)
         elif fam == "small":
             jerk = rng.randint(-12, 12); accel = rng.randint(-60, 60); rate = rng.randint(-500, 500)
         elif fam == "zero_jerk":
